@@ -223,7 +223,7 @@ pub fn run(args: &Args) {
     report.engine("inproc");
     report.assumption("md-5 0.10 / sha2 0.10 compute MD5 / SHA-256; the hashed bytes are the UTF-8 bytes of the document string parsed from the JSON file");
     report.assumption("programs the compiler does not accept without persisted documents are outside the domain (skipped, counted)");
-    let ex = ArtExclusions { no_persisted: true, ..Default::default() };
+    let ex = ArtExclusions { no_persisted: true, ..driver::negative_int_exclusion() };
     let run_input = |input: &Value| {
         let files = cases::load_case_files(input).files;
         let i = input["combo"].as_u64().unwrap_or(0) as usize;
@@ -246,8 +246,9 @@ pub fn run(args: &Args) {
             }
         }
     }
-    let n = args.tier.pick(1600, 48_000);
+    let n = args.tier.pick(2000, 60_000);
     let res = vcore::run_prop_parallel(&report, "projects", n, vcore::num_workers(), driver::art_case_strategy, |spec| {
+        driver::count_excluded(&report, spec, &ex);
         let case = driver::gen_case(spec, &ex);
         for c in combos_of(spec) {
             check(&report, &case.rendered.files, &c, &format!("tier:{}", case.tier), true)?;
